@@ -57,6 +57,8 @@ def call_method(ex, obj, name, args, kwargs):
             if obj.lock.held == 0:
                 ex.throw('RuntimeError', 'cannot notify on un-acquired lock')
             obj.notified += 1
+            if name != 'notify':
+                obj.notified_all += 1
             ex.events.append((name, obj))
             return None
         if name == 'wait':
